@@ -3,7 +3,13 @@
    FULL statement (DESIGN.md section 5, C01): for every shape of the universe `ty`, every well-formed value
    and every finite history of public operations at any nesting depth, the pointer machine (Unsized/Machine.v,
    Ops.v) succeeds / fails exactly when the owned model does and every observation agrees.
-   PROVED here (named ..._flat): the full refinement for FLAT shapes - generated structs whose fields are
+   PROVED here (named ..._general, from Unsized/Proofs/{Layout,Observe,Table,Path,Context,Focus,FocusOps,NotifyInside,
+   Resize,GenOps,History}.v): for EVERY enum-free shape (structs, lists, trailing bytes, lists and maps of unsized
+   elements nested to any depth), every well-formed value, every path and every finite history of
+   List::insert_all / remove_range (push, insert, pop, remove, clear are instances) issued at ANY nesting depth through
+   get_mut / get_exclusive on every list of unsized elements on the way: the machine succeeds exactly when the owned
+   model does, every ancestor header / offset table / live pointer is updated, and every observation agrees.
+   Also (named ..._flat, the earlier special case): the full refinement for FLAT shapes - generated structs whose fields are
    fixed-size values, lists of any element type and prefix width, and a trailing RemainingBytes - under
    histories of insert_all / remove_range (push, insert, pop, remove, clear are instances) with interleaving
    between sibling fields, unbounded in sizes and steps.  For lists of unsized elements, maps, enums and
@@ -11,6 +17,8 @@
    plus the shape-generic lemmas below (the shift lemma covers the repaired D7 branch for every shape). *)
 From SF Require Import Base.Prelude Gen.Generated Unsized.Types Unsized.Parse Unsized.Machine Unsized.Ops.
 From SF Require Import Unsized.Proofs.EncodeParse Unsized.Proofs.Mem Unsized.Proofs.Notify Unsized.Proofs.Flat.
+From SF Require Import Unsized.Proofs.Layout Unsized.Proofs.Observe Unsized.Proofs.Path Unsized.Proofs.Context Unsized.Proofs.FocusOps
+  Unsized.Proofs.NotifyInside Unsized.Proofs.Resize Unsized.Proofs.GenOps Unsized.Proofs.History.
 
 (* one operation: same success, and the new machine state represents the owned model's new value *)
 Theorem C01_flat_step_refines :
@@ -77,6 +85,92 @@ Proof. exact rep_borrow. Qed.
 Theorem C01_notify_shift :
   forall t p src c m, after src t p = true -> notify t p src c m = Ok (shift c p, m).
 Proof. exact notify_shift. Qed.
+
+(* ---------------------------------------------------------------------------------------------- *)
+(* ANY nesting depth                                                                               *)
+
+(* the descent through get_mut / get_exclusive: every list of unsized elements on the path records the layout of
+   exactly the element the path goes through, nothing else changes *)
+Theorem C01_general_descent :
+  forall ovf r pre t v s top X xv,
+    RepF pre t v s top -> resolve t v (pre ++ r) = Some (X, xv) ->
+    exists top', menter ovf t s top (mpath pre) r = Ok top' /\ RepF (pre ++ r) t v s top'.
+Proof. exact menter_ok. Qed.
+
+(* one operation anywhere inside the value: same success, the new state represents the owned model's new value *)
+Theorem C01_general_step_refines :
+  forall ovf t v s top pi0 o v',
+    RepF pi0 t v s top -> m_refuse s <> 1 -> ostepG (m_cap s) t v o = Some v' ->
+    exists s' top', mstepG ovf t s top o = Ok (s', top', []) /\ RepF (focus_of o) t v' s' top' /\
+                    m_cap s' = m_cap s /\ m_refuse s' = m_refuse s.
+Proof. exact gstep_refines. Qed.
+
+(* any history, by induction on its length *)
+Theorem C01_general_run_refines :
+  forall ovf t h v s top pi0 v',
+    RepF pi0 t v s top -> m_refuse s <> 1 -> orunG (m_cap s) t v h = Some v' ->
+    exists s' top' pi', mrunG ovf t s top h = Ok (s', top') /\ RepF pi' t v' s' top' /\ m_cap s' = m_cap s.
+Proof. exact grun_refines. Qed.
+
+(* the resize notification of a container anywhere inside the value fixes exactly the ancestors' headers and
+   offset tables (the byte context of the container with the size change applied) and yields the layout of
+   the new value, the container's own node apart *)
+Theorem C01_general_notify_inside :
+  forall pi t last v p X xv xv' c h pre post,
+    plain t = true -> ty_ok last t = true -> wf t v = true ->
+    resolve t v pi = Some (X, xv) -> container X = true ->
+    LayP Lay pi t v (zlen pre) p ->
+    zlen h = zlen (encode X xv) + c ->
+    zlen (encode X xv') = zlen (encode X xv) + c ->
+    0 <= zlen (encode X xv) + c ->
+    zlen (encode t v) + c < U32_LIMIT ->
+    exists p',
+      notify t p (addr_of t v pi (zlen pre)) c (pre ++ fst (hctx t v pi 0) ++ h ++ snd (hctx t v pi 0) ++ post)
+      = Ok (p', pre ++ fst (hctx t v pi c) ++ h ++ snd (hctx t v pi 0) ++ post)
+      /\ LayP (EndNotified xv c) pi t (plug t v pi xv') (zlen pre) p'.
+Proof. exact notify_inside. Qed.
+
+(* every observation in a represented state equals the owned value: through the live accessors (whatever the
+   lists of unsized elements remember), as raw bytes, through a fresh parse; and no pointer assertion can fire *)
+Theorem C01_general_observable :
+  forall ovf pi t v s top, RepF pi t v s top ->
+    owned_ptr ovf t (m_mem s) top = Ok v /\
+    ztake (m_len s) (m_mem s) = encode t v /\
+    m_len s = byte_size t v /\
+    parse ovf t (ztake (m_len s) (m_mem s)) = Ok (v, m_len s) /\
+    top_check s top = true.
+Proof. exact repf_observable. Qed.
+
+(* releasing and re-borrowing *)
+Theorem C01_general_reborrow :
+  forall ovf t v s,
+    plain t = true -> ty_ok true t = true -> wf t v = true ->
+    (exists junk, m_mem s = encode t v ++ junk) -> m_len s = zlen (encode t v) -> m_cap s < U32_LIMIT ->
+    exists top, get_ptr ovf t (m_mem s) 0 (m_len s) = Ok (top, m_len s) /\ RepF [] t v s top.
+Proof. exact repf_borrow. Qed.
+
+(* non-vacuity on a nested shape: a struct holding a list of unsized elements whose elements are structs holding
+   lists; operations two levels down, interleaved with a sibling and a top-level list *)
+Example C01_nonvacuous_general :
+  let et := TStruct [TFixed (FAny 2); TList (FAny 1) 1] in
+  let t := TStruct [TList (FAny 1) 4; TUList et 0; TList (FAny 2) 4] in
+  let e x y := VStruct [VBytes [x; x]; VList y] in
+  let v := VStruct [VList [[1]]; VUList [([], e 3 [[5]; [6]]); ([], e 4 []); ([], e 5 [[9]])]; VList [[9; 9]]] in
+  let s := mkMach (encode t v ++ zrepeat 0 10240) (zlen (encode t v)) 0 0 in
+  let h := [GInsert [SF 1; SE 1; SF 1] 0 [[7]; [7]; [7]]; GInsert [SF 0] 1 [[2]; [2]];
+            GRemove [SF 1; SE 0; SF 1] 0 1; GInsert [SF 1; SE 2; SF 1] 1 [[8]]; GRemove [SF 2] 0 1;
+            GRemove [SF 1; SE 1; SF 1] 1 3] in
+  let v' := VStruct [VList [[1]; [2]; [2]]; VUList [([], e 3 [[6]]); ([], e 4 [[7]]); ([], e 5 [[9]; [8]])]; VList []] in
+  orunG (m_cap s) t v h = Some v' /\
+  match get_ptr true t (m_mem s) 0 (m_len s) with
+  | Ok (top, _) =>
+      match mrunG true t s top h with
+      | Ok (s', top') => ztake (m_len s') (m_mem s') = encode t v' /\ owned_ptr true t (m_mem s') top' = Ok v' /\ top_check s' top' = true
+      | _ => False
+      end
+  | _ => False
+  end.
+Proof. vm_compute. repeat split; reflexivity. Qed.
 
 (* non-vacuity, and the D7 history on a nested shape evaluated on the machine: touch an element of a list of
    unsized elements, grow a preceding sibling, touch again - no panic, canonical bytes *)
